@@ -48,12 +48,13 @@ def execute(case):
     oids = proj.Oids()
     kind, op, emb = case["kind"], case["op"], case["emb"]
     fmts = case.get("fmt") or ["C"] * len(case["ops"])
-    out = {"tid": case["tid"], "kind": kind, "op": op, "emb": emb, "dflt": case.get("dflt", 0), "fmt": fmts, "exc": "ok", "ys": [],
+    dflts = case.get("dflts") or [case.get("dflt", 0)] * len(case["ops"])
+    out = {"tid": case["tid"], "kind": kind, "op": op, "emb": emb, "dflt": case.get("dflt", 0), "dflts": dflts, "fmt": fmts, "exc": "ok", "ys": [],
            "wt": {"done": 0, "k": 1, "pt": [], "v": 0, "after": {"root": {"k": "F", "e": []}}}}
     try:
         if kind == "prefix":
             return exec_prefix(case, out, oids)
-        built = [build_operand(t, emb, fmts[k], oids, "T%d" % k, case.get("dflt", 0)) for k, t in enumerate(case["ops"])]
+        built = [build_operand(t, emb, fmts[k], oids, "T%d" % k, dflts[k]) for k, t in enumerate(case["ops"])]
         fibers = [b[0] for b in built]
         out["act"] = [[int(x) for x in f.getActive()] for f in fibers]
         out["pre"] = [b[1]() for b in built]
